@@ -71,7 +71,7 @@ func VP_C05_dec32() {
 	ref, m := vpRefLEB(uint64(uint32(v)))
 	trail := vp.Bytes(3)
 	stream := append(append([]byte{}, ref[:m]...), trail...)
-	var got VarInt
+	got := VarInt(vp.Int32()) // arbitrary prior contents of the destination
 	if vp.Choice(2) == 0 {
 		r := bytes.NewReader(stream)
 		n, err := got.ReadFrom(r)
@@ -95,7 +95,7 @@ func VP_C05_dec64() {
 	ref, m := vpRefLEB(uint64(v))
 	trail := vp.Bytes(3)
 	stream := append(append([]byte{}, ref[:m]...), trail...)
-	var got VarLong
+	got := VarLong(vp.Int64()) // arbitrary prior contents of the destination
 	if vp.Choice(2) == 0 {
 		r := bytes.NewReader(stream)
 		n, err := got.ReadFrom(r)
@@ -119,7 +119,7 @@ func VP_C05_dec64() {
 // asserted about the value decoded from non-minimal encodings.
 func VP_C05_cap32() {
 	b := vp.Bytes(12)
-	var got VarInt
+	got := VarInt(vp.Int32()) // arbitrary prior contents of the destination
 	var used int
 	var n int64
 	var err error
@@ -148,7 +148,7 @@ func VP_C05_cap32() {
 
 func VP_C05_cap64() {
 	b := vp.Bytes(12)
-	var got VarLong
+	got := VarLong(vp.Int64()) // arbitrary prior contents of the destination
 	var used int
 	var n int64
 	var err error
